@@ -110,6 +110,25 @@ static void mount_pass(cppcms::service &srv_unused,int sh,int n){ (void)srv_unus
 		if(d==maxk) return; for(int i=0;i<NC;i++){ bool used=false; for(size_t q=0;q<ord.size();q++) if(ord[q]==i) used=true; if(used) continue; ord.push_back(i); rec(d+1); ord.pop_back(); } }; rec(0);
 }
 
+// ---------------- B2: asynchronous applications mounted BY POINTER (the pool's second, "legacy" list) -------------------------------------------
+// Every ordered triple of 4 mount points is mounted by pointer; optionally one of the three applications has served a request and was then dropped by its owner
+// (the uninstall idiom), so its entry is dead when the next request arrives. For every request the FIRST request after that history must go to the first LIVE mount
+// point in registration order that matches the whole path (with its group), else to none - a fresh service per (triple, dropped application, request), because
+// purging a dead entry happens only once.
+static void legacy_async_pass(int sh,int n){ using cppcms::mount_point; struct LM { const char *path; int group; }; LM cand[]={ {"/a",0},{"/a(/.*)?",1},{"/(a|ab)(/.*)?",2},{"(/.*)?",0} }; const int NC=4; const char *paths[]={"","/a","/a/b","/ab","/ab/c","/b","/abc","/a/"}; int idx=0;
+	std::vector<Pat> PP; for(int i=0;i<NC;i++) PP.push_back(Pat(cand[i].path));
+	for(int a=0;a<NC;a++) for(int b=0;b<NC;b++) for(int c=0;c<NC;c++){ if(a==b||b==c||a==c) continue; int ord[3]={a,b,c}; for(int dead=-1;dead<3;dead++) for(int pi=0;pi<8;pi++){ if((idx++%n)!=sh) continue; vf::eval();
+		cppcms::json::value cfg; cfg["service"]["api"]="http"; cfg["service"]["port"]=0; cfg["service"]["disable_global_exit_handling"]=true; cppcms::service srv(cfg); booster::intrusive_ptr<cppcms::application> apps[3]; cppcms::application *raw[3];
+		std::string cs="async applications mounted by pointer:"; for(int i=0;i<3;i++){ apps[i]=new NullApp(srv); raw[i]=apps[i].get(); mount_point mp; mp.selection(mount_point::match_path_info); mp.host(booster::regex("(h"+std::to_string(i)+"|any)")); mp.path_info(booster::regex(cand[ord[i]].path)); mp.group(cand[ord[i]].group); srv.applications_pool().mount(apps[i],mp); cs+=std::string(" ")+cand[ord[i]].path; }
+		if(dead>=0){ // application `dead` serves one request (a host only it answers to), then its owner lets go of it
+			std::string m; booster::shared_ptr<cppcms::application_specific_pool> p=srv.applications_pool().get_application_specific_pool(("h"+std::to_string(dead)).c_str(),"","/a",m); if(!p){ vf::guard("legacy_attach_impossible"); continue; } { booster::intrusive_ptr<cppcms::application> got=p->get(srv); if(got.get()!=raw[dead]){ bad("legacy:attach","the request addressed to one application's host was routed to another","setup "+cs); continue; } } apps[dead]=0; cs+=" ; #"+std::to_string(dead)+" served a request and was dropped"; }
+		cs+=std::string(" ; request path=")+vf::vis(paths[pi]); vf::announce(cs);
+		std::string got; booster::shared_ptr<cppcms::application_specific_pool> r=srv.applications_pool().get_application_specific_pool("any","",paths[pi],got); int gi=-1; if(r){ booster::intrusive_ptr<cppcms::application> ap=r->get(srv); for(int i=0;i<3;i++) if(i!=dead&&ap.get()==raw[i]) gi=i; if(gi<0) gi=99; }
+		int wi=-1; std::string want; for(int i=0;i<3&&wi<0;i++){ if(i==dead) continue; std::vector<std::string> g; if(PP[ord[i]].match(paths[pi],g)){ wi=i; want=g[cand[ord[i]].group]; } }
+		if(gi!=wi||(wi>=0&&got!=want)) bad("legacy:first-match","the request went to mounted application "+std::to_string(gi)+" with sub-path "+vf::vis(got)+", expected application "+std::to_string(wi)+" with "+vf::vis(want),cs);
+		vf::guard("legacy_async_requests"); if(dead>=0&&wi>dead) vf::guard("legacy_requests_routed_past_a_dead_entry"); vf::outcome("lg|"+std::to_string(a)+std::to_string(b)+std::to_string(c)+"|"+std::to_string(dead)+"|"+paths[pi]+"|"+std::to_string(gi));
+		{ static uint64_t sc=0; if(vf::sample_tick(sc,211)) vf::sample("{\"setup\":"+vf::jstr(cs)+",\"routed_to\":"+std::to_string(gi)+",\"sub_path\":"+vf::jstr(got)+"}",60); } } } }
+
 // ---------------- C: application trees, mapper <-> dispatcher consistency -------------------------------------------
 struct TreeApp : public cppcms::application { std::string name; TreeApp(cppcms::service &s,const std::string &n):cppcms::application(s),name(n){
 		dispatcher().assign("/page/(\\d+)",&TreeApp::page,this,1); mapper().assign("page","/page/{1}");
@@ -154,10 +173,10 @@ static void tree_pass(cppcms::service &srv,int sh,int n){ // shapes: 0: root onl
 }
 
 int main(int argc,char **argv){ vf::init(argc,argv,"C20","exploration"); int n=16; bool th=vf::thorough(); build_inputs(th?5:4);
-	vf::C().rule=std::string("A: every ordered list of 1..")+(th?"3":"2")+" handlers from 14 (pattern, group selection) variants, registered with assign() and with map() under method filters {none,GET,POST,(GET|HEAD)}, x every path of length <= "+(th?"5":"4")+" over {/ a b 1 x y} plus 70 edited witnesses (trailing newline, embedded NUL, prefix, suffix) x methods {GET,POST,HEAD,get,'',GETX,GE,XGET,POSTS,GET|HEAD,HEADGET,no context}; B: 12 mount points x 4 hosts x 6 script names x 8 paths, and every ordered pair (thorough: triple) of them mounted in an applications_pool; C: 5 application-tree shapes x 2 mount styles: every (from,to) application pair x {absolute, relative, ./relative} key forms x keys {page,item,loc,loc;lang,default} x parameter tuples, and every path of length <= "+(th?"6":"5")+" over {/ 1 a s} plus 1728 segment triples routed through the tree. Oracle: reference router over an own backtracking full-matcher. distinct = (configuration, input, handler+arguments)";
+	vf::C().rule=std::string("A: every ordered list of 1..")+(th?"3":"2")+" handlers from 14 (pattern, group selection) variants, registered with assign() and with map() under method filters {none,GET,POST,(GET|HEAD)}, x every path of length <= "+(th?"5":"4")+" over {/ a b 1 x y} plus 70 edited witnesses (trailing newline, embedded NUL, prefix, suffix) x methods {GET,POST,HEAD,get,'',GETX,GE,XGET,POSTS,GET|HEAD,HEADGET,no context}; B2: every ordered triple of 4 mount points mounted BY POINTER (asynchronous applications), none or one of them having served a request and been dropped, x 8 paths, each on a fresh service; B: 12 mount points x 4 hosts x 6 script names x 8 paths, and every ordered pair (thorough: triple) of them mounted in an applications_pool; C: 5 application-tree shapes x 2 mount styles: every (from,to) application pair x {absolute, relative, ./relative} key forms x keys {page,item,loc,loc;lang,default} x parameter tuples, and every path of length <= "+(th?"6":"5")+" over {/ 1 a s} plus 1728 segment triples routed through the tree. Oracle: reference router over an own backtracking full-matcher. distinct = (configuration, input, handler+arguments)";
 	vf::assume("reference matcher implements literals, ., \\d, \\w, groups, |, ?, *, + with Perl backtracking order; patterns are chosen so captures are unambiguous");
 	vf::assume("relative order between the legacy asynchronous mount list and the main list is not checked");
 	if(!vf::C().replay_file.empty()) printf("replay: C20 cases are deterministic functions of the configuration; re-running quick tier cases\n");
-	vf::parallel(n,n,[&](int sh){ cppcms::json::value cfg; cfg["service"]["api"]="http"; cfg["service"]["port"]=0; cfg["service"]["disable_global_exit_handling"]=true; cfg["misc"]["invalid_url_throws"]=true; cppcms::service srv(cfg); dispatcher_pass(srv,sh,n,th?3:2); mount_pass(srv,sh,n); tree_pass(srv,sh,n); },1500);
-	vf::require_guard("dispatched"); vf::require_guard("not_found"); vf::require_guard("mount_matched"); vf::require_guard("pool_later_mount_selected"); vf::require_guard("mapper_roundtrips"); vf::require_guard("routed_to_nested_app");
+	vf::parallel(n,n,[&](int sh){ cppcms::json::value cfg; cfg["service"]["api"]="http"; cfg["service"]["port"]=0; cfg["service"]["disable_global_exit_handling"]=true; cfg["misc"]["invalid_url_throws"]=true; cppcms::service srv(cfg); dispatcher_pass(srv,sh,n,th?3:2); mount_pass(srv,sh,n); legacy_async_pass(sh,n); tree_pass(srv,sh,n); },1500);
+	vf::require_guard("dispatched"); vf::require_guard("not_found"); vf::require_guard("mount_matched"); vf::require_guard("pool_later_mount_selected"); vf::require_guard("legacy_async_requests"); vf::require_guard("legacy_requests_routed_past_a_dead_entry"); vf::require_guard("mapper_roundtrips"); vf::require_guard("routed_to_nested_app");
 	return vf::finish(); }
